@@ -410,8 +410,10 @@ def r3(ctx):
                      C.AND(word(("app", "chess_lookup::knight_moves", (kp,))), C.pieces("Knight"), opp),
                      C.AND(word(("app", "chess_lookup::pawn_attacks_moves", (kp, fld(board, "turn")))), C.pieces("Pawn"), opp)]
             subsets = {canon(C.OR(*[parts[i] for i in s_]) if len(s_) > 1 else parts[s_[0]]): s_ for r_ in (1, 2, 3) for s_ in itertools.combinations(range(3), r_)}
-            post = [lf for lf in rets if lf.known.get(fld(board, "turn")) == turn and lf.ret[0] != "loopback"
-                    and any(t[0] == "discr" and t[1][0] == "app" and t[1][1] == NEXT and v == "None" for t, v in lf.cond)]
+            # every way out except "a slider has an open line to the square" (that answer does not depend on the adjacent attackers): the paths
+            # that finished the ray scan, and early answers given before it
+            open_line = lambda lf: lf.ret == T.FALSE and any(t[0] == "bin" and t[1] in ("Eq", "Ne") and any(s_[0] == "app" and s_[1] == "chess_lookup::between" for s_ in subterms(t)) for t, v in lf.cond)
+            post = [lf for lf in rets if lf.known.get(fld(board, "turn")) == turn and lf.ret[0] != "loopback" and not open_line(lf)]
             def ztest(t, v):
                 """(subset of the three attacker sets, expected emptiness) of a condition / result `x == 0`, or None"""
                 zt = zero_test(t, v)
